@@ -19,35 +19,43 @@ for p in sorted(glob.glob(V + '/selftest/refactors/C*/*.patch')):
 claimed = set(c['property_id'] for c in json.load(open(V + '/MANIFEST.json'))['checks'])
 ok = bad = skipped = 0
 rows = []
-for prop, patch, expect in cases:
-    if want and prop not in want:
-        continue
+
+def one(case):
+    prop, patch, expect = case
     if prop not in claimed:
-        skipped += 1
-        rows.append((prop, patch, 'SKIP (property not claimed)'))
-        continue
+        return (prop, patch, 'SKIP (property not claimed)', 'skip')
     d = tempfile.mkdtemp(prefix='selftest.')
     try:
         for f in glob.glob('/repo/*.go') + ['/repo/go.mod', '/repo/go.sum']:
             shutil.copy(f, d)
         r = subprocess.run(['patch', '-s', '-p1', '-d', d, '-i', patch], capture_output=True, text=True)
         if r.returncode != 0:
-            rows.append((prop, patch, 'PATCH-FAILED ' + r.stdout[:100])); bad += (0 if EVIDENCE else 1)
-            continue
+            return (prop, patch, 'PATCH-FAILED ' + r.stdout[:100], 'patchfail')
         out = tempfile.mkdtemp(prefix='selftest.out.')
         r = subprocess.run([V + '/bin/gobv', 'check', '-p', prop, '-repo', d, '-out', out], capture_output=True, text=True, env=dict(os.environ, GOBV_NO_REPLAY='1'))  # replays (overlay go test runs) are exercised separately
         shutil.rmtree(out)
         viol = [l for l in r.stdout.splitlines() if l.startswith('VIOLATION')]
         good = (r.returncode == 1 and viol) if expect == 1 else (r.returncode == 0 and not viol)
         if good:
-            ok += 1
             what = ('caught: ' + ', '.join(sorted(set(v.split('obligation=')[1].split()[0] for v in viol)))[:300]) if expect == 1 else 'quiet'
-            rows.append((prop, patch, 'OK ' + what))
+            return (prop, patch, 'OK ' + what, 'ok')
+        return (prop, patch, 'MISSED (exit %d) %s' % (r.returncode, (r.stdout + r.stderr)[-300:].replace('\n', ' | ')), 'bad')
+    finally:
+        shutil.rmtree(d, ignore_errors=True)
+
+import concurrent.futures
+todo = [c for c in cases if not want or c[0] in want]
+with concurrent.futures.ThreadPoolExecutor(max_workers=4) as ex:
+    for prop, patch, res, kind in ex.map(one, todo):
+        rows.append((prop, patch, res))
+        if kind == 'ok':
+            ok += 1
+        elif kind == 'skip':
+            skipped += 1
+        elif kind == 'patchfail':
+            bad += (0 if EVIDENCE else 1)
         else:
             bad += 1
-            rows.append((prop, patch, 'MISSED (exit %d) %s' % (r.returncode, (r.stdout + r.stderr)[-300:].replace('\n', ' | '))))
-    finally:
-        shutil.rmtree(d)
 for prop, patch, res in rows:
     print('%-4s %-60s %s' % (prop, patch.replace(V + '/', '')[-60:], res))
 print('selftest: %d ok, %d bad, %d skipped' % (ok, bad, skipped))
